@@ -484,3 +484,319 @@ def _(ctx):
             ctx.failures.append(("set_text leaves the line cursor where the previous text ended (a re-used session skips lines / returns no slots)", {}, ("k_replay_session_reuse", [])))
     if not n_ret:
         ctx.failures.append(("set_text has no returning path", {}, None))
+
+
+def abs_(t):
+    return z3.If(t >= 0, t, -t)
+
+
+def assume_unit_word(ex, fname, cfgv, tkv, text_term, units):
+    """the unit word bound by {GROUP:type:duration_group} is in constant_pair[language] and names one of `units`
+    (engine D d_duration_words checks config.json for exactly this)"""
+    from engine_m import proj_index
+    ci, cty = proj_index(fname, r"BTreeMap<alloc::string::String, (alloc::collections::)?BTreeMap<alloc::string::String, constants::ConstantType>>")
+    li, lty = proj_index(fname, r"^alloc::string::String$")
+    outer = models.get_map(ex, cfgv.field(ci, cty))
+    lang = tkv.field(li, lty)
+    has, inner = outer.lookup(lang)
+    ex.assumptions.append(has)
+    imap = models.get_map(ex, inner)
+    has2, ct = imap.lookup(StrV(text_term))
+    ex.assumptions.append(has2)
+    ex.assumptions.append(z3.Or([ct.tag() == ex.discr("ConstantType", u) for u in units]))
+    return ct.tag()
+
+
+@spec("C10", "m_duration_parse_total", "duration_parse never declines or panics for a unit word of the duration group and |N| <= 10^6")
+def _(ctx):
+    ex, fields, toks, args, cfgv, tkv = setup_rule("duration_parse", "real")
+    x = fval(toks["duration"], "Number")
+    n = ex.f_to_int(x, 64, True).t
+    ex.assumptions.append(z3.And(n >= -10 ** 6, n <= 10 ** 6))
+    word = toks["type"].payload("Text").field(0, "alloc::string::String").term()
+    tag = assume_unit_word(ex, "duration_rules::duration_parse", cfgv, tkv, word, ["Day", "Week", "Month", "Year", "Second", "Minute", "Hour"])
+    outs, _ = run_fn(ex, "duration_rules::duration_parse", args)
+    ctx.part.functions.append("duration_rules::duration_parse")
+    ctx.paths += len(outs)
+    rp = ("m_replay_duration_parse", [(tag, "u8"), (x.t, "f64")])
+    for o in outs:
+        if o.kind == "panic":
+            ctx.reachable(ex, o.path, "duration_parse can panic: " + o.msg, rp)
+        elif is_err(o):
+            ctx.reachable(ex, o.path, "duration_parse declines a unit word of the duration group", rp)
+        else:
+            ctx.part.queries += 1
+
+
+@spec("C10", "m_as_duration", "as_duration on a duration (MIR -> SMT, integers exact): 'D as seconds|minutes|hours|days|weeks' is floor(|D| / unit) whole units, for every D in chrono's range; no panic")
+def _(ctx):
+    ex, fields, toks, args, cfgv, tkv = setup_rule("as_duration", "real")
+    src = toks["source"]
+    ex.assumptions.append(tag_is(ex, src, "Duration"))
+    d = src.payload("Duration").field(0, "chrono::TimeDelta").secs
+    word = toks["type"].payload("Text").field(0, "alloc::string::String").term()
+    tag = assume_unit_word(ex, "duration_rules::as_duration", cfgv, tkv, word, list(UNIT_LEN))
+    outs, _ = run_fn(ex, "duration_rules::as_duration", args)
+    ctx.part.functions.append("duration_rules::as_duration")
+    ctx.paths += len(outs)
+    rp = ("m_replay_as_duration", [(tag, "u8"), (d, "i64")])
+    n_ok = 0
+    for o in outs:
+        if o.kind == "panic":
+            ctx.reachable(ex, o.path, "as_duration can panic: " + o.msg, rp)
+        elif is_err(o):
+            ctx.reachable(ex, o.path, "as_duration declines one of the five target units", rp)
+        else:
+            secs = duration_payload(o)
+            n_ok += 1
+            if secs is None:
+                ctx.failures.append(("as_duration returns something that is not a duration", {}, None))
+                continue
+            want = None
+            for u, l in UNIT_LEN.items():
+                w = (abs_(d) / l) * l
+                want = w if want is None else z3.If(tag == ex.discr("ConstantType", u), w, want)
+            ctx.claim(ex, o.path, secs == want, "D as <unit> is not floor(|D| / unit) units", rp)
+    if not n_ok:
+        ctx.failures.append(("as_duration has no Ok path", {}, None))
+
+
+YEAR_S = 365 * 86400
+
+
+@spec("C10", "m_duration_calculate", "DurationItem::calculate (MIR -> SMT): D1 + D2 and D1 - D2 are the exact sum / difference of seconds (|D| <= 10^6 years each); never None, no panic")
+def _(ctx):
+    for op in ("Add", "Sub"):
+        ex = new_exec("real")
+        cfgv, item, other, me = calc_setup(ex, "DurationItem", ["DurationItem"])
+        a = me.field(0, "chrono::TimeDelta").secs
+        b = other.payload("DurationItem").field(0, "chrono::TimeDelta").secs
+        lim = 10 ** 6 * YEAR_S
+        ex.assumptions.append(z3.And(abs_(a) <= lim, abs_(b) <= lim))
+        outs = run_calc(ex, "DurationItem", item, cfgv, other, op)
+        ctx.part.functions.append("compiler::duration::calculate")
+        ctx.paths += len(outs)
+        rp = ("m_replay_duration_calc", [(op == "Add", "bool"), (a, "i64"), (b, "i64")])
+        for o in outs:
+            if o.kind == "panic":
+                ctx.reachable(ex, o.path, "DurationItem %s can panic: %s" % (op, o.msg), rp)
+                continue
+            it = some_item(o)
+            if it == "None" or it is None or it.kind != "DurationItem":
+                ctx.reachable(ex, o.path, "duration %s duration is not a duration" % op, rp)
+                continue
+            ctx.claim(ex, o.path, it.f[0].secs == (a + b if op == "Add" else a - b), "duration %s duration is not the exact %s" % (op, "sum" if op == "Add" else "difference"), rp)
+
+
+@spec("C10", "m_combine_durations", "combine_durations (MIR -> SMT): durations written next to each other add up: the result is the sum of all 2..6 parts bound by the pattern")
+def _(ctx):
+    ex, fields, toks, args, cfgv, tkv = setup_rule("combine_durations", "real")
+    fields.keys_order = [str(i) for i in range(1, 7)]
+    lim = 10 ** 6 * YEAR_S
+    ds = {}
+    for k in fields.keys_order:
+        ds[k] = toks[k].payload("Duration").field(0, "chrono::TimeDelta").secs
+        ex.assumptions.append(abs_(ds[k]) <= lim)
+    outs, _ = run_fn(ex, "duration_rules::combine_durations", args)
+    ctx.part.functions.append("duration_rules::combine_durations")
+    ctx.paths += len(outs)
+    total = sum(z3.If(fields.has_key(k), ds[k], 0) for k in fields.keys_order)
+    rp = ("m_replay_combine_durations", [(z3.Sum([z3.If(fields.has_key(k), 1, 0) for k in fields.keys_order]), "u8")] + [(ds[k], "i64") for k in fields.keys_order])
+    n_ok = 0
+    for o in outs:
+        if o.kind == "panic":
+            ctx.reachable(ex, o.path, "combine_durations can panic: " + o.msg, rp)
+        elif is_err(o):
+            ctx.reachable(ex, o.path, "combine_durations declines although its pattern matched", rp)
+        else:
+            secs = duration_payload(o)
+            n_ok += 1
+            ctx.claim(ex, o.path, secs == total, "adjacent durations do not add up", rp)
+    if not n_ok:
+        ctx.failures.append(("combine_durations has no Ok path", {}, None))
+
+
+PRINT_UNITS = [("Year", 365 * 86400), ("Month", 30 * 86400), ("Week", 7 * 86400), ("Day", 86400), ("Hour", 3600), ("Minute", 60), ("Second", 1)]
+
+
+@spec("C10", "m_duration_print", "DurationItem::print (MIR -> SMT, integers exact): the (count, unit) parts handed to the formatter are the greedy decomposition of |D| into years(365d), months(30d), weeks, days, hours, minutes, seconds: they sum to |D|, every count >= 1 and below the next unit's ratio, units strictly descending; for every D in chrono's range")
+def _(ctx):
+    ex = new_exec("real")
+    ex.handlers.insert(0, (__import__("re").compile(r"^DurationItem::duration_formatter$"), models.h_event_call))
+    ex.handlers.insert(0, (__import__("re").compile(r"^(alloc::string::)?String::new$|^core::str::<impl str>::trim$"), models.h_opaque))
+    me = SymV(ex, "self", "payload")
+    cfgv = SymV(ex, "config", "config::SmartCalcConfig")
+    sess = SymV(ex, "session", "session::Session")
+    fn = models.item_impl(ex, "DurationItem", "print")
+    d = me.field(0, "chrono::TimeDelta").secs
+    outs = list(ex.run(fn, [RefV(ItemV("DurationItem", me)), RefV(cfgv), RefV(sess)], Path()))
+    ctx.part.functions.append("compiler::duration::print")
+    ctx.paths += len(outs)
+    kinds = ex.enums["DurationFormatType"]
+    n_formatted = 0
+    rp = ("m_replay_duration_print", [(d, "i64")])
+    for o in outs:
+        if o.kind == "panic":
+            ctx.reachable(ex, o.path, "DurationItem::print can panic: " + o.msg, rp)
+            continue
+        evs = [e for e in o.path.events if e[0] == "duration_formatter"]
+        if not evs and not ex.feasible(o.path, d != 0):
+            continue
+        # an empty event list is legitimate only without a format table (prints "") or for D == 0
+        parts = []
+        for e in evs:
+            count, kind = e[1][3], e[1][4]
+            if not (isinstance(kind, EnumV) and isinstance(count, IntV)):
+                raise Unsupported("duration_formatter event with a non-constant unit")
+            parts.append((kind.variant, count.t))
+        if not evs:
+            # either no format table for the language (and none for "en"): prints "" - outside the property
+            continue
+        n_formatted += 1
+        unit_len = dict(PRINT_UNITS)
+        order = [u for u, _ in PRINT_UNITS]
+        total = sum(c * unit_len[u] for u, c in parts)
+        ctx.claim(ex, o.path, total == abs_(d), "printed duration parts do not sum to the magnitude", rp)
+        idxs = [order.index(u) for u, _ in parts]
+        if idxs != sorted(set(idxs)):
+            ctx.failures.append(("printed duration parts are not strictly descending units: %s" % [u for u, _ in parts], {}, rp and None))
+        for u, c in parts:
+            i = order.index(u)
+            bound = (unit_len[order[i - 1]] // unit_len[u]) if i > 0 else None
+            cl = c >= 1 if bound is None else z3.And(c >= 1, c * unit_len[u] < unit_len[order[i - 1]])
+            ctx.claim(ex, o.path, cl, "printed %s count is 0 or not smaller than the next larger unit" % u, rp)
+    if not n_formatted:
+        ctx.failures.append(("DurationItem::print has no path that formats parts", {}, None))
+
+
+@spec("C11", "m_duration_as_time", "DurationItem::as_time (MIR -> SMT): the clock reading of a duration is |D| mod 24 h (hours, minutes, seconds split), on today's date, for every D in chrono's range; no panic")
+def _(ctx):
+    ex = new_exec("real")
+    me = SymV(ex, "self", "payload")
+    d = me.field(0, "chrono::TimeDelta").secs
+    fn = find_fn("as_time")
+    outs = list(ex.run(fn, [RefV(ItemV("DurationItem", me))], Path()))
+    ctx.part.functions.append("compiler::duration::as_time")
+    ctx.paths += len(outs)
+    rp = ("m_replay_as_time", [(d, "i64")])
+    n = 0
+    for o in outs:
+        if o.kind == "panic":
+            ctx.reachable(ex, o.path, "DurationItem::as_time can panic: " + o.msg, rp)
+            continue
+        v = o.value
+        if not isinstance(v, DateTimeV):
+            raise Unsupported("as_time returned %r" % (v,))
+        n += 1
+        ctx.claim(ex, o.path, v.secs == abs_(d) % 86400, "as_time is not |D| mod 24 h", rp)
+        ctx.claim(ex, o.path, v.days == ex._now.days, "as_time is not anchored on today's date", rp)
+    if not n:
+        ctx.failures.append(("as_time has no returning path", {}, None))
+
+
+# ============================================================================ C13 / C14: radix / raw printing
+import re as _re
+
+
+def run_number_print(ex):
+    ex.handlers.insert(0, (_re.compile(r"^core::fmt::rt::Argument::<'_>::new_\w+::<.*>$"), models.h_event_call))
+    ex.handlers.insert(0, (_re.compile(r"^format_number$|^formatter::format_number$"), models.h_event_call))
+    ex.handlers.insert(0, (_re.compile(r"^Arguments::<'_>::new(_const)?::<.*>$|^alloc::fmt::format$|^must_use::<.*>$|^core::fmt::rt::Argument::<'_>::none$|^<(alloc::string::)?String as ToString>::to_string$"), models.h_opaque))
+    me = SymV(ex, "self", "payload")
+    cfgv = SymV(ex, "config", "config::SmartCalcConfig")
+    sess = SymV(ex, "session", "session::Session")
+    fn = models.item_impl(ex, "NumberItem", "print")
+    outs = list(ex.run(fn, [RefV(ItemV("NumberItem", me)), RefV(cfgv), RefV(sess)], Path()))
+    return me, outs
+
+
+def number_print_spec(ctx, kinds, lo, hi, what):
+    ex = new_exec("real")
+    me, outs = run_number_print(ex)
+    ctx.part.functions.append("compiler::number::print")
+    ctx.paths += len(outs)
+    x = me.field(0, "f64").t
+    nt = me.field(1, "types::NumberType")
+    n = z3.Int("N")
+    ex.assumptions.append(z3.And(x == z3.ToReal(n), n >= lo, n <= hi))
+    seen = set()
+    for o in outs:
+        if o.kind == "panic":
+            ctx.reachable(ex, o.path, "NumberItem::print can panic: " + o.msg)
+            continue
+        for k in kinds:
+            cond = nt.tag() == ex.discr("NumberType", k)
+            if not ex.feasible(o.path, cond):
+                continue
+            seen.add(k)
+            evs = [e for e in o.path.events if e[0].startswith("new_")]
+            fmt = {"Binary": "new_binary", "Octal": "new_octal", "Hexadecimal": "new_upper_hex", "Raw": "new_display"}[k]
+            if len(evs) != 1 or evs[0][0] != fmt:
+                ctx.failures.append(("%s number is not printed with %s (events: %s)" % (k, fmt, [e[0] for e in evs]), {}, None))
+                continue
+            v = evs[0][1][0]
+            if not isinstance(v, IntV):
+                raise Unsupported("formatted value is not an integer")
+            rp = ("m_replay_number_print", [(ex.discr("NumberType", k), "u8"), (x, "f64")])
+            ctx.claim(ex, o.path.add(cond), v.t == n, what % k, rp)
+    if seen != set(kinds):
+        ctx.failures.append(("NumberItem::print: kinds without a path: %s" % sorted(set(kinds) - seen), {}, None))
+
+
+@spec("C13", "m_radix_print_i32", "NumberItem::print (MIR -> SMT): for Binary / Octal / Hexadecimal numbers the integer handed to the {:#b} {:#o} {:#X} formatter IS the value N, for every integer 0 <= N < 2^31")
+def _(ctx):
+    number_print_spec(ctx, ["Binary", "Octal", "Hexadecimal"], 0, 2 ** 31 - 1, "the %s print of N does not show N (0 <= N < 2^31)")
+
+
+@spec("C13", "m_radix_print_wide", "same for 2^31 <= N <= 2^53 (literals the calculator accepts): the printed integer is N")
+def _(ctx):
+    number_print_spec(ctx, ["Binary", "Octal", "Hexadecimal"], 2 ** 31, 2 ** 53, "the %s print of N >= 2^31 does not show N")
+
+
+@spec("C14", "m_raw_print_i32", "NumberItem::print of a Raw number (unix timestamp): the integer handed to the formatter is the timestamp, for |ts| < 2^31")
+def _(ctx):
+    number_print_spec(ctx, ["Raw"], -(2 ** 31) + 1, 2 ** 31 - 1, "the %s print of a timestamp does not show every digit (|ts| < 2^31)")
+
+
+@spec("C14", "m_raw_print_wide", "same for timestamps of years 2038..9999 (2^31 <= ts <= 253402300799) and of years 1..1901 (negative)")
+def _(ctx):
+    number_print_spec(ctx, ["Raw"], 2 ** 31, 253402300799, "the %s print of a timestamp >= 2^31 does not show every digit")
+    number_print_spec(ctx, ["Raw"], -62135596800, -(2 ** 31), "the %s print of a timestamp <= -2^31 does not show every digit")
+
+
+@spec("C13", "m_number_type_convert", "number_type_convert (MIR -> SMT): 'N to hex|octal|binary|decimal' rounds N half away from zero and sets the NumberType named by the keyword; declines other words; no panic")
+def _(ctx):
+    ex, fields, toks, args, cfgv, tkv = setup_rule("number_type_convert", "real")
+    outs, _ = run_fn(ex, "number_rules::number_type_convert", args)
+    ctx.part.functions.append("number_rules::number_type_convert")
+    ctx.paths += len(outs)
+    x = fval(toks["number"], "Number").t
+    word = toks["type"].payload("Text").field(0, "alloc::string::String").term()
+    want_round = z3.ToReal(z3.If(x >= 0, z3.ToInt(x + z3.Q(1, 2)), -z3.ToInt(-x + z3.Q(1, 2))))
+    table = {"hex": "Hexadecimal", "hexadecimal": "Hexadecimal", "octal": "Octal", "binary": "Binary", "decimal": "Decimal"}
+    seen = set()
+    for o in outs:
+        if o.kind == "panic":
+            ctx.reachable(ex, o.path, "number_type_convert can panic: " + o.msg)
+            continue
+        if is_err(o):
+            # must only decline words outside the table
+            for w in table:
+                r, _m = ctx.q.check(ex, o.path, word == z3.StringVal(w), 20000)
+                if r != "unsat":
+                    ctx.failures.append(("number_type_convert declines the keyword %r" % w, {}, ("m_replay_number_type_convert", [(list(table).index(w), "u8"), (x, "f64")])))
+            continue
+        variant, f = ok_payload(o)
+        if variant != "Number":
+            ctx.failures.append(("number_type_convert returns a %s" % variant, {}, None))
+            continue
+        nt = f[1].variant if isinstance(f[1], EnumV) else None
+        for w, want in table.items():
+            if ex.feasible(o.path, word == z3.StringVal(w)):
+                seen.add(w)
+                rp = ("m_replay_number_type_convert", [(list(table).index(w), "u8"), (x, "f64")])
+                if nt != want:
+                    ctx.failures.append(("'to %s' yields NumberType %s" % (w, nt), {}, rp))
+                ctx.claim(ex, o.path.add(word == z3.StringVal(w)), f[0].t == want_round, "'N to %s' does not round N to the nearest integer (half away from zero)" % w, rp)
+    if seen != set(table):
+        ctx.failures.append(("number_type_convert: keywords without an Ok path: %s" % sorted(set(table) - seen), {}, None))
